@@ -306,29 +306,17 @@ Definition sum6_ok (frame : list Z) : bool :=
   let icmp := skipn 40 frame in
   ocsum (sub frame 8 32 ++ be32z (zlen icmp) ++ [0; 0; 0; 58] ++ icmp) 0 =? 65535.
 
-(* the sizes of the views that hold the echo data (everything after the 40 + 8 header bytes) have
-   an odd one that is not the last: the input pattern of known finding C13-echo6-odd-chunk *)
-Fixpoint drop_sizes (sizes : list Z) (n : Z) : list Z :=
-  match sizes with
-  | [] => []
-  | c :: rest => if n <=? 0 then sizes else if n <? c then (c - n) :: rest else drop_sizes rest (n - c)
-  end.
-Fixpoint odd_nonfinal (sizes : list Z) : bool :=
-  match sizes with
-  | [] | [_] => false
-  | c :: rest => Z.odd c || odd_nonfinal rest
-  end.
-Definition view_sizes (pkt : list Z) (chunks : list Z) : list Z := map zlen (split_views pkt chunks).
-Definition odd_chunk6 (pkt : list Z) (chunks : list Z) : bool :=
-  odd_nonfinal (filter (fun c => 0 <? c) (drop_sizes (view_sizes pkt chunks) 48)).
-
+(* A reply whose checksum does not verify is a plain violation (code 1) however the request was
+   split into views: the input pattern of the former known finding C13-echo6-odd-chunk (a view of
+   the echo data, other than the last, of odd length; pattern code 2 until /repo commit 1404d7f
+   repaired icmpChecksum) is no longer excused.  Code 2 is not reused. *)
 Definition spec6_single (owned : list (list Z)) (pkt : list Z) (chunks : list Z) (frames : list (list Z)) : Z :=
   let r := parse6 owned pkt in
   match frames with
   | [] => if q_good r then (if hdr_in_first_view pkt chunks 48 then 1 else 3) else 0
   | [f] =>
       if q_echo r && answers6_nosum r f then
-        (if sum6_ok f then 0 else if odd_chunk6 pkt chunks then 2 else 1)
+        (if sum6_ok f then 0 else 1)
       else 1
   | _ => 1
   end.
@@ -402,8 +390,24 @@ Definition dspec (c : dcase) : Z :=
 (* 0 = trivial (not even an IP header / nothing observed);
    1/2 = IPv4 request answered, single view / several views;  3 = IPv4 not answered (short, other
    type, foreign or unassigned destination, ...);  4/5/6 = the same for IPv6;  7 = fragments;
-   8 = gated burst without a dropped request, 9 = with one;  10 = free-running burst *)
+   8 = gated burst without a dropped request, 9 = with one;  10 = free-running burst;
+   11 = IPv6 request answered whose echo data (everything behind the 40 + 8 header bytes) arrived
+   in views of which one that is not the last has odd length (the input shape of the fixed finding
+   C13-echo6-odd-chunk; counted separately so that the evidence shows the shape is exercised) *)
 Definition multi (chunks : list Z) : bool := match chunks with [] => false | _ => true end.
+Fixpoint drop_sizes (sizes : list Z) (n : Z) : list Z :=
+  match sizes with
+  | [] => []
+  | c :: rest => if n <=? 0 then sizes else if n <? c then (c - n) :: rest else drop_sizes rest (n - c)
+  end.
+Fixpoint odd_nonfinal (sizes : list Z) : bool :=
+  match sizes with
+  | [] | [_] => false
+  | c :: rest => Z.odd c || odd_nonfinal rest
+  end.
+Definition view_sizes (pkt : list Z) (chunks : list Z) : list Z := map zlen (split_views pkt chunks).
+Definition odd_chunk6 (pkt : list Z) (chunks : list Z) : bool :=
+  odd_nonfinal (filter (fun c => 0 <? c) (drop_sizes (view_sizes pkt chunks) 48)).
 Definition n_arrivals (evs : list ev) : nat :=
   length (filter (fun e => match e with EA _ => true | ER _ => false end) evs).
 Definition n_replies (evs : list ev) : nat :=
@@ -416,7 +420,10 @@ Definition dtag (c : dcase) : Z :=
   | C4F _ _ _ _ _ _ _ => 7
   | C6 _ pkt chunks frames _ =>
       if zlen pkt <? 40 then 0
-      else match frames with [] => 6 | _ => if multi chunks then 5 else 4 end
+      else match frames with
+           | [] => 6
+           | _ => if multi chunks then (if odd_chunk6 pkt chunks then 11 else 5) else 4
+           end
   | CGate4 _ evs _ =>
       match evs with [] => 0 | _ => if (n_replies evs <? n_arrivals evs)%nat then 9 else 8 end
   | CFree4 _ reqs _ _ => match reqs with [] => 0 | _ => 10 end
